@@ -156,6 +156,23 @@ type fnFact struct {
 	calls  []string   // router methods it calls directly (sorted, unique)
 	spawns [][]string // per `go` statement: the router methods the new goroutine calls (sorted, unique)
 	incs   []string   // router fields it increments
+	// straight: the body has no branching / looping / return statement of its own (outside function literals): a
+	// helper extracted from a caller ("extract method") — its calls, spawns and increments count as the caller's
+	straight bool
+}
+
+func isStraight(body *ast.BlockStmt) bool {
+	ok := true
+	ast.Inspect(body, func(x ast.Node) bool {
+		switch x.(type) {
+		case *ast.FuncLit:
+			return false
+		case *ast.IfStmt, *ast.ForStmt, *ast.RangeStmt, *ast.SwitchStmt, *ast.TypeSwitchStmt, *ast.SelectStmt, *ast.ReturnStmt:
+			ok = false
+		}
+		return ok
+	})
+	return ok
 }
 
 func recvIsRouter(e ast.Expr, recv string) bool {
@@ -235,12 +252,30 @@ func asyncFacts(repo string, want []string) []fnFact {
 				continue
 			}
 			recv := fd.Recv.List[0].Names[0].Name
-			ff := fnFact{name: fd.Name.Name}
+			ff := fnFact{name: fd.Name.Name, straight: isStraight(fd.Body)}
 			ff.calls = uniqSorted(routerCalls(fd.Body, recv, false, &ff.locks, &ff.incs, &ff.spawns))
 			ff.incs = uniqSorted(ff.incs)
 			sort.Slice(ff.spawns, func(i, j int) bool { return strings.Join(ff.spawns[i], ",") < strings.Join(ff.spawns[j], ",") })
 			found[ff.name] = ff
 		}
+	}
+	listed := map[string]bool{}
+	for _, w := range want {
+		listed[w] = true
+	}
+	// names of router methods, with straight-line helpers that the model does not name replaced by what they call
+	var expand func(names []string, depth int) []string
+	expand = func(names []string, depth int) []string {
+		var out []string
+		for _, n := range names {
+			h, ok := found[n]
+			if ok && !listed[n] && h.straight && depth < 4 {
+				out = append(out, expand(h.calls, depth+1)...)
+			} else {
+				out = append(out, n)
+			}
+		}
+		return uniqSorted(out)
 	}
 	var out []fnFact
 	for _, w := range want {
@@ -248,6 +283,23 @@ func asyncFacts(repo string, want []string) []fnFact {
 		if !ok {
 			die("dv/dv: router method %s not found (the task-level model of the advertisement machinery names it)", w)
 		}
+		var calls []string
+		for _, c := range ff.calls {
+			h, ok := found[c]
+			if ok && !listed[c] && h.straight {
+				calls = append(calls, expand(h.calls, 1)...)
+				ff.spawns = append(ff.spawns, h.spawns...)
+				ff.incs = uniqSorted(append(ff.incs, h.incs...))
+				ff.locks = ff.locks || h.locks
+			} else {
+				calls = append(calls, c)
+			}
+		}
+		ff.calls = uniqSorted(calls)
+		for i, g := range ff.spawns {
+			ff.spawns[i] = expand(g, 0)
+		}
+		sort.Slice(ff.spawns, func(i, j int) bool { return strings.Join(ff.spawns[i], ",") < strings.Join(ff.spawns[j], ",") })
 		out = append(out, ff)
 	}
 	return out
